@@ -469,6 +469,12 @@ def _state(case, ctx):
     changed = params_changed(before, after) if before and after else []
     changed = [k for k in changed if not (k in before["shallow"] and k in after["shallow"] and _same(before["shallow"][k], after["shallow"][k]) and
                                           before["deep"].get(k) == after["deep"].get(k))]
+    from vmon.contracts import _sklearn_composite
+    if changed and _sklearn_composite(est):
+        # fit delegates to scikit-learn's Pipeline / FeatureUnion, which fit their steps in place by design: not the package's code
+        ctx.ambiguous += 1
+        ctx.tag("fit-inherited-from-scikit-learn-fits-components-in-place:" + name)
+        changed = []
     ctx.check("fit.params-unchanged", not changed, "fit:changes-constructor-parameter:%s:%s" % (name, ",".join(changed)), "fit changed constructor parameter(s) %s" % changed,
               configuration=name_v, before={k: repr(before["deep"].get(k))[:80] for k in changed}, after={k: repr(after["deep"].get(k))[:80] for k in changed})
     ok, c = ctx.call("clone-of-fitted:exception:" + name, clone, est)
